@@ -254,17 +254,9 @@ theorem pkey_restoreTarget (p : Packet) : pkey (restoreTarget p) = pkey p := by
   obtain ⟨a, b, c, d, e, f, _⟩ := restoreTarget_fields p
   exact pkey_congr a b c d e f
 
-theorem pkey_finalizedRecord (p : Packet) (b : Bool) : pkey (finalizedRecord p b) = pkey p := by
-  unfold finalizedRecord
-  split
-  · exact (pkey_congr rfl rfl rfl rfl rfl rfl).trans (pkey_restoreTarget p)
-  · exact pkey_congr rfl rfl rfl rfl rfl rfl
+theorem pkey_finalizedRecord (p : Packet) (b : Bool) : pkey (finalizedRecord p b) = pkey p := rfl
 
-theorem finalizedRecord_status (p : Packet) (b : Bool) : (finalizedRecord p b).status = p.status := by
-  unfold finalizedRecord
-  split
-  · exact (restoreTarget_fields p).1
-  · rfl
+theorem finalizedRecord_status (p : Packet) (b : Bool) : (finalizedRecord p b).status = p.status := rfl
 
 theorem inv_finalizePacket {s s' : St} {k : Bytes} (h : Inv04 s) (hf : finalizePacket s k = .ok s') : Inv04 s' := by
   unfold finalizePacket at hf
@@ -451,15 +443,9 @@ theorem deletePacket_packets (s : St) (p : Packet) : (deletePacket s p).packets 
 
 theorem inv_revertPacket {s : St} {p : Packet} (h : Inv04 s) (hp : p ∈ s.packets) (hst : p.status = .pending) :
     Inv04 (revertPacket s p) := by
-  unfold revertPacket
-  have hk : pkey (if (p.ptype == PType.onRecv) = true then p else restoreTarget p) = pkey p := by
-    split
-    · rfl
-    · exact pkey_restoreTarget p
-  unfold deletePacket
+  unfold revertPacket deletePacket
   apply Inv04.of_frame ((frame_delOrder _ _ _).trans (frame_delOrder _ _ _))
   apply inv_delByAddr
-  rw [hk]
   unfold revertIbc
   cases hr : (p.ptype == PType.onRecv)
   · simp only [Bool.false_eq_true, if_false]
@@ -470,11 +456,6 @@ theorem inv_revertPacket {s : St} {p : Packet} (h : Inv04 s) (hp : p ∈ s.packe
 theorem revertPacket_packets (s : St) (p : Packet) : (revertPacket s p).packets = s.packets.filter (fun q => pkey q != pkey p) := by
   unfold revertPacket
   rw [deletePacket_packets]
-  have hk : pkey (if (p.ptype == PType.onRecv) = true then p else restoreTarget p) = pkey p := by
-    split
-    · rfl
-    · exact pkey_restoreTarget p
-  rw [hk]
   unfold revertIbc
   split <;> rfl
 
